@@ -15,7 +15,8 @@ P49 = "p" * 49
 
 POOLS = {
     "f": [NAN, 0.0, -0.0, 1.0, -1.0, 2.5, INF, -INF, 2.0**53, 2.0**53 + 2, -2.0**60, 1e-7, 1e16, 5e-324],
-    "i": [0, 1, -1, 2, 7, 2**31, -2**31, 2**53, 2**53 + 1, 2**53 + 2, -(2**53 + 1), 2**63 - 1, 2**63 - 2, -2**63 + 1, -2**63],
+    "i": [0, 1, -1, 2, 7, 2**31, -2**31, 2**53, 2**53 + 1, 2**53 + 2, -(2**53 + 1), 2**63 - 1, 2**63 - 2, -2**63 + 1, -2**63,
+          127, 128, -128, -129, 255, 256, 32767, 32768, -32768, 65535, 65536, 2**31 - 1, 2**32],     # width boundaries
     "b": [True, False],
     "s": ["", "a", "b", "ab", "B", "é", "日本", "😀", " a", P49 + "a", P49 + "b", P49, "q" * 70],
     "u": ["", "a", "b", "ab", "B", "é", "日本", " a"],
